@@ -258,6 +258,7 @@ func (fc *funcContext) translateExpr(expr ast.Expr) *expression {
 					obj := fc.pkgCtx.Uses[x.Sel].(*types.Var)
 					return fc.formatExpr(`(%1s || (%1s = new %2s(function() { return %3s; }, function($v) { %4s })))`, fc.varPtrName(obj), fc.typeName(exprType), fc.objectName(obj), fc.translateAssign(x, fc.newIdent("$v", elemType), false))
 				}
+				x, sel = fc.derefEmbeddedPointers(x, sel)
 				newSel := &ast.SelectorExpr{X: fc.newIdent("this.$target", fc.typeOf(x.X)), Sel: x.Sel}
 				fc.setType(newSel, exprType)
 				fc.pkgCtx.additionalSelections[newSel] = sel
@@ -954,6 +955,48 @@ func (fc *funcContext) delegatedCall(expr *ast.CallExpr) (callable *expression, 
 	callable = fc.formatExpr("function(%s) { %e; }", strings.Join(vars, ", "), wrapper)
 	arglist = fc.formatExpr("[%s]", strings.Join(args, ", "))
 	return callable, arglist
+}
+
+// derefEmbeddedPointers prepares the operand of an address-of expression. A field
+// that is reached through embedded pointers belongs to the struct the last of these
+// pointers refers to now: that part of the implicit path is made explicit, so that
+// it is evaluated once (when the pointer is created) and not on every access
+// through the pointer.
+func (fc *funcContext) derefEmbeddedPointers(x *ast.SelectorExpr, sel typesutil.Selection) (*ast.SelectorExpr, typesutil.Selection) {
+	index := sel.Index()
+	lastPtr := -1
+	t := sel.Recv()
+	for i, idx := range index[:len(index)-1] {
+		if ptr, isPtr := t.Underlying().(*types.Pointer); isPtr {
+			t = ptr.Elem()
+		}
+		t = fc.fieldType(t.Underlying().(*types.Struct), idx)
+		if _, isPtr := t.Underlying().(*types.Pointer); isPtr {
+			lastPtr = i
+		}
+	}
+	if lastPtr == -1 {
+		return x, sel
+	}
+
+	base := x.X
+	t = sel.Recv()
+	for _, idx := range index[:lastPtr+1] {
+		recv := t
+		if ptr, isPtr := t.Underlying().(*types.Pointer); isPtr {
+			t = ptr.Elem()
+		}
+		s := t.Underlying().(*types.Struct)
+		t = fc.fieldType(s, idx)
+		field := &ast.SelectorExpr{X: base, Sel: ast.NewIdent(s.Field(idx).Name())}
+		fc.pkgCtx.additionalSelections[field] = typesutil.NewSelection(types.FieldVal, recv, []int{idx}, s.Field(idx), t)
+		base = fc.setType(field, t)
+	}
+	rest := &ast.SelectorExpr{X: base, Sel: x.Sel}
+	fc.setType(rest, fc.typeOf(x))
+	restSel := typesutil.NewSelection(types.FieldVal, t, index[lastPtr+1:], sel.Obj(), sel.Type())
+	fc.pkgCtx.additionalSelections[rest] = restSel
+	return rest, restSel
 }
 
 func (fc *funcContext) makeReceiver(e *ast.SelectorExpr) *expression {
